@@ -3,7 +3,7 @@
    definition of Core/Arith.v (Core/ArithMore.v) on the whole range of its Go argument types
    (where the domain is smaller this is stated as a hypothesis and listed in docs/gotrans.md).
    A change of the Go arithmetic that changes a function's value makes this file fail to compile. *)
-From Coq Require Import ZArith Lia Bool ZifyBool.
+From Coq Require Import ZArith Lia Bool ZifyBool Btauto.
 From CV Require Import Base.GoSem Base.Bits Core.Arith Core.ArithMore Gen.GoArith.
 Open Scope Z_scope.
 Ltac Zify.zify_post_hook ::= Z.div_mod_to_equations.
@@ -31,6 +31,12 @@ Ltac split_ifs :=
   repeat match goal with
          | |- context [if ?c then _ else _] => let E := fresh "E" in destruct c eqn:E
          end.
+(* [lor_ac]: equal up to associativity / commutativity of bitwise OR (operand order in the Go
+   source is irrelevant), by extensionality on bits *)
+Ltac lor_ac :=
+  first [ reflexivity
+        | (unwrap; apply Z.bits_inj'; let n := fresh "n" in let Hn := fresh "Hn" in intros n Hn;
+           rewrite ?Z.lor_spec; btauto) ].
 Ltac fin := first [reflexivity | lia | (f_equal; lia) | (repeat f_equal; lia)].
 
 (* ------------------------------------------------------------------ address.go *)
@@ -171,7 +177,7 @@ Proof.
   { unfold dataWordCount in E. destruct Hs as [Hs _]. unranges.
     destruct (DataSize sz mod 8 =? 0); [|discriminate]. injection E as <-. lia. }
   assert (Hsd : s32 d = d) by (unwrap; split_ifs; lia).
-  rewrite Hsd. reflexivity.
+  rewrite Hsd. lor_ac.
 Qed.
 
 Theorem go_rawListPointer_agrees : forall off lt len, in_s32 off -> in_s64 lt -> in_s32 len ->
@@ -179,25 +185,25 @@ Theorem go_rawListPointer_agrees : forall off lt len, in_s32 off -> in_s64 lt ->
 Proof.
   intros off lt len Ho Hl Hn. unfold go_rawListPointer, rawListPointer, listPointer.
   assert (H : wrap_u64 (wrap_u64 lt * 4294967296) = u64 (lt * 4294967296)) by (unwrap; lia).
-  rewrite H. reflexivity.
+  rewrite H. lor_ac.
 Qed.
 
 Theorem go_rawInterfacePointer_agrees : forall cap, go_rawInterfacePointer cap = rawInterfacePointer cap.
-Proof. reflexivity. Qed.
+Proof. lor_ac. Qed.
 
 Theorem go_rawFarPointer_agrees : forall seg off, go_rawFarPointer seg off = rawFarPointer seg off.
-Proof. intros. unfold go_rawFarPointer, rawFarPointer, farPointer. bits. reflexivity. Qed.
+Proof. intros. unfold go_rawFarPointer, rawFarPointer, farPointer. bits. lor_ac. Qed.
 
 Theorem go_rawDoubleFarPointer_agrees : forall seg off,
   go_rawDoubleFarPointer seg off = rawDoubleFarPointer seg off.
-Proof. intros. unfold go_rawDoubleFarPointer, rawDoubleFarPointer, doubleFarPointer. bits. reflexivity. Qed.
+Proof. intros. unfold go_rawDoubleFarPointer, rawDoubleFarPointer, doubleFarPointer. bits. lor_ac. Qed.
 
 Theorem go_pointerType_agrees : forall p, in_u64 p -> go_pointerType p = pointerType p.
 Proof.
   intros p Hp. unranges. unfold go_pointerType, pointerType. bits.
   assert (H3 : wrap_s64 (p mod 4) = p mod 4) by (unwrap; split_ifs; lia).
   assert (H7 : wrap_s64 (p mod 8) = p mod 8) by (unwrap; split_ifs; lia).
-  rewrite H3, H7. reflexivity.
+  rewrite H3, H7. first [reflexivity | (split_ifs; lia)].
 Qed.
 
 Theorem go_structSize_agrees : forall p, go_structSize p = structSize p.
